@@ -562,7 +562,17 @@ func scenFifoAcrossStreamBreak(tr *vtrace.Tracer, kind string) error {
 		}
 		time.Sleep(10 * time.Millisecond)
 	}
+	// the write of the first call fails (its stream is gone); the sender is then held
+	// with the next request until the receiver has re-created the stream, so that
+	// the buffered calls travel over the new connection
+	g2 := l.gate("SndConnCheck", 1)
+	pos := tr.Len()
 	g.Open()
+	if g2.Arrived(SyncTimeout) {
+		tr.Await(pos, SyncTimeout, func(e vtrace.Event) bool { return e.Ev == "ReconNewStream" && e.Node == 1 && e.Bool("ok") })
+		time.Sleep(5 * time.Millisecond)
+	}
+	g2.Open()
 	// wait for the handler of the last call (or give up: the calls may all have failed)
 	last := rest[len(rest)-1]
 	tr.Await(from, QuietT, func(e vtrace.Event) bool { return e.Ev == "HStart" && e.Tok == last.tok })
